@@ -261,7 +261,7 @@ def _status_lines(rng, n):
 
 
 def gen_cases(rng, tier):
-    n = {"quick": 420, "thorough": 40000, "search": 600}[tier]
+    n = {"quick": 420, "thorough": 25000, "search": 600}[tier]
     cases = []
     for i in range(n):
         stream, cfg = _gen_stream(rng)
